@@ -446,7 +446,7 @@ func checkC09PS(c *Ctx, m *Module, sl *Slicer) {
 			// the proof verified is the request's own
 			okOwn := false
 			if fa, ok := strip(verifyCall.Call.Args[0]).(*ssa.FieldAddr); ok {
-				okOwn = sl.Slice(fa.X)[sbs.Params[1]] || strip(fa.X) == ssa.Value(sbs.Params[1])
+				okOwn = sl.Slice(fa.X)[sbs.Params[1]] || strip(fa.X) == strip(sbs.Params[1])
 			}
 			c.Check(okOwn, G1, FuncName(sbs), "the proof verified is the request's own", m.Pos(verifyCall.Pos()), "σ.ξ.Verify(...)", "the proof checked does not belong to the request being signed")
 			n := 0
@@ -458,12 +458,12 @@ func checkC09PS(c *Ctx, m *Module, sl *Slicer) {
 				uses := false
 				switch x := in.(type) {
 				case *ssa.Field:
-					uses = strip(x.X) == ssa.Value(sk)
+					uses = strip(x.X) == strip(sk)
 				case *ssa.FieldAddr:
 					if a, isA := strip(x.X).(*ssa.Alloc); isA {
 						// spilled parameter
 						for _, st := range storesToCell(a) {
-							if st.Val == ssa.Value(sk) {
+							if st.Val == strip(sk) {
 								uses = true
 							}
 						}
@@ -557,7 +557,7 @@ func checkC09PS(c *Ctx, m *Module, sl *Slicer) {
 						}
 						found := false
 						for a := range argSet {
-							if b, f, isF := fieldLoad(a); isF && f == st.Field(i) && strip(b) == ssa.Value(caller.Params[0]) {
+							if b, f, isF := fieldLoad(a); isF && f == st.Field(i) && strip(b) == strip(caller.Params[0]) {
 								found = true
 							}
 						}
